@@ -52,6 +52,8 @@ def classify(e: BaseException) -> str:
         return "CCT_Error"
     if isinstance(e, cryptography.exceptions.InvalidSignature):
         return "InvalidSignature"
+    if isinstance(e, UnicodeEncodeError):
+        return "UnicodeEncodeError"  # a ValueError subclass, but never a *documented* argument error: emitting text failed
     if isinstance(e, (TypeError, ValueError)):
         return "ArgError"
     if isinstance(e, OSError):
